@@ -206,6 +206,22 @@ fn duration_group(ctx: &mut Ctx, all: &[(String, TimeDelta, i32, i128)]) {
         if !matches!(r, Outcome::Ok((true, true, true))) {
             viol(ctx, "x+(-x)==0, -(-x)==x, x-x==0", None, json!({"family": fam, "x": sx}), "all true".into(), format!("{r:?}"));
         }
+        // integer scaling is repeated addition: x*0 == 0, x*1 == x, x*(-1) == -x, x*(k+1) == x*k + x, and the
+        // components of x*k are k times those of x (the duration's model is the pair (months, ns))
+        for k in -4i32..=4 {
+            let r = catch(|| {
+                let xk = x * k;
+                (xk.months as i64 == *mx as i64 * k as i64, xk.inner.num_nanoseconds().map(|v| v as i128) == Some(*nx * k as i128), x * (k + 1) == xk + x, x * (-k) == -xk)
+            });
+            ctx.eval(fam, hash_bytes(format!("{:?}", catch(|| x * k)).as_bytes()));
+            if !matches!(r, Outcome::Ok((true, true, true, true))) {
+                viol(ctx, "x*k == (k*months, k*ns), x*(k+1)==x*k+x, x*(-k)==-(x*k)", None, json!({"family": fam, "x": sx, "k": k}), "all true".into(), format!("{r:?}"));
+            }
+        }
+        let r = catch(|| (x * 0 == zero, x * 1 == x, x * -1 == -x));
+        if !matches!(r, Outcome::Ok((true, true, true))) {
+            viol(ctx, "x*0==0, x*1==x, x*(-1)==-x", None, json!({"family": fam, "x": sx}), "all true".into(), format!("{r:?}"));
+        }
         for (sy, y, _, _) in sel.iter().map(|t| (&t.0, t.1, t.2, t.3)) {
             ctx.transitions += 1;
             for k in [-3, 0, 2] {
